@@ -249,6 +249,124 @@ def planOrder : List (List Char) :=
 
 end Source
 
+/-! #### the extracted step list, run against the model -/
+
+namespace Source
+
+def W : List Char := "wipe".toList
+
+def isValidatorName (s : List Char) : Bool := modelValidators.any fun v => v.toList == s
+
+/-- what a validator step of the extracted list checks, in the model's terms (`none`: not a validator step) -/
+def checkOf (cfg : Cfg β) (f : AFont β) (fs : FS β) (s : List Char) : Option (Option Refusal) :=
+  if s = "version".toList then some (if f.version ≠ 3 then some .downgrade else none)
+  else if s = "objectlibs".toList then some (if hasObjectLibsKey f.lib then some .objectLibsKey else none)
+  else if s = "groups".toList then some (if !f.groupsValid then some .invalidGroups else none)
+  else if s = "fontinfo".toList then some (if !f.info.valid then some .invalidFontInfo else none)
+  else if s = "force".toList then
+    some (if (forceStore cfg .data fs f.data).isSome && (forceStore cfg .images fs f.images).isSome then none
+          else some .invalidStoreEntry)
+  else none
+
+/-- The extracted step list run against the model: the validators in SOURCE order; at the wipe the model's wipe and
+    plan take over.  A step in front of the wipe that is not a validator (`fs:<call>`, `return-ok`, anything) is an
+    effect the model knows nothing about: `unknown` may do to the file system whatever it likes. -/
+def execSteps (cfg : Cfg β) (f : AFont β) (t : APath) (unknown : List Char → FS β → FS β) :
+    List (List Char) → FS β → Option SaveErr × FS β
+  | [], fs => (none, fs)
+  | s :: r, fs =>
+    if s = W then
+      match forceStore cfg .data fs f.data, forceStore cfg .images fs f.images with
+      | some d, some i =>
+        match wipe fs t with
+        | .error e => (some (.cleanup e), fs)
+        | .ok fs1 => runEffs (plan cfg f d i t) fs1
+      | _, _ => (some .panic, fs)
+    else
+      match checkOf cfg f fs s with
+      | some (some k) => (some (.refused k), fs)
+      | some none => execSteps cfg f t unknown r fs
+      | none => execSteps cfg f t unknown r (unknown s fs)
+
+theorem checkOf_isSome (cfg : Cfg β) (f : AFont β) (fs : FS β) (s : List Char) (h : isValidatorName s = true) :
+    ∃ x, checkOf cfg f fs s = some x := by
+  unfold isValidatorName modelValidators at h
+  simp only [List.any_cons, List.any_nil, Bool.or_false, Bool.or_eq_true, beq_iff_eq] at h
+  unfold checkOf
+  rcases h with h | h | h | h | h <;> subst h <;> simp <;> decide
+
+/-- general form: if everything in front of the wipe is a validator and one of them fails, the outcome is a refusal
+    with the file system the call was given — whatever unknown steps might do -/
+theorem exec_prefix_refuses (cfg : Cfg β) (f : AFont β) (t : APath) (unknown : List Char → FS β → FS β) (fs : FS β) :
+    ∀ (steps : List (List Char)),
+      (∀ s ∈ steps.takeWhile (· != W), isValidatorName s = true) →
+      (∃ s ∈ steps.takeWhile (· != W), ∃ k, checkOf cfg f fs s = some (some k)) →
+      ∃ k, execSteps cfg f t unknown steps fs = (some (.refused k), fs) := by
+  intro steps
+  induction steps with
+  | nil => intro _ h; obtain ⟨s, hs, _⟩ := h; cases hs
+  | cons s r ih =>
+    intro hall hfail
+    by_cases hw : s = W
+    · subst hw
+      obtain ⟨x, hx, _⟩ := hfail
+      simp [List.takeWhile] at hx
+    · have hne : (s != W) = true := by simpa using hw
+      simp only [List.takeWhile, hne] at hall hfail
+      obtain ⟨x, hx⟩ := checkOf_isSome cfg f fs s (hall s (List.mem_cons_self ..))
+      unfold execSteps
+      simp only [hw, if_false, hx]
+      cases x with
+      | some k => exact ⟨k, rfl⟩
+      | none =>
+        apply ih (fun y hy => hall y (List.mem_cons_of_mem _ hy))
+        obtain ⟨y, hy, k, hk⟩ := hfail
+        rcases List.mem_cons.mp hy with rfl | hy'
+        · rw [hx] at hk; cases hk
+        · exact ⟨y, hy', k, hk⟩
+
+end Source
+
+open Source Generated.SaveOrder in
+/-- **`source_plan_refusal_has_no_effect`** — about the step list extracted from the source: every step in front of the
+    wipe is a validator, hence (semantic consequence) whenever one of those steps refuses, running the extracted list
+    yields a refusal together with the file system it was given; no interpretation of unknown steps can change that. -/
+theorem source_plan_refusal_has_no_effect :
+    (∀ s ∈ saveSteps.takeWhile (· != W), isValidatorName s = true) ∧
+    ∀ {β : Type} (cfg : Cfg β) (f : AFont β) (t : APath) (unknown : List Char → FS β → FS β) (fs : FS β),
+      (∃ s ∈ saveSteps.takeWhile (· != W), ∃ k, checkOf cfg f fs s = some (some k)) →
+      ∃ k, execSteps cfg f t unknown saveSteps fs = (some (.refused k), fs) := by
+  have h : ∀ s ∈ saveSteps.takeWhile (· != W), isValidatorName s = true := by decide
+  exact ⟨h, fun cfg f t unknown fs hf => exec_prefix_refuses cfg f t unknown fs saveSteps h hf⟩
+
+open Source Generated.SaveOrder in
+/-- … and the extracted list refuses whenever the model does: each of the model's five validators is one of the steps
+    in front of the wipe, so `validatePhase = error` makes one of them fail. -/
+theorem source_refuses_whenever_model_does {β : Type} (cfg : Cfg β) (f : AFont β) (t : APath)
+    (unknown : List Char → FS β → FS β) (fs : FS β) (k : Refusal) (hv : validatePhase cfg f fs = .error k) :
+    ∃ k', execSteps cfg f t unknown saveSteps fs = (some (.refused k'), fs) := by
+  have hmem : ∀ v ∈ modelValidators, v.toList ∈ saveSteps.takeWhile (· != W) := by decide
+  apply (source_plan_refusal_has_no_effect).2 cfg f t unknown fs
+  -- which validator of the model fails
+  by_cases h1 : f.version = 3
+  · cases h2 : hasObjectLibsKey f.lib
+    · cases h3 : f.groupsValid
+      · exact ⟨_, hmem "groups" (by decide), .invalidGroups, by simp [checkOf, h3]⟩
+      · cases h4 : f.info.valid
+        · exact ⟨_, hmem "fontinfo" (by decide), .invalidFontInfo, by simp [checkOf, h4]⟩
+        · refine ⟨_, hmem "force" (by decide), .invalidStoreEntry, ?_⟩
+          have : ¬ ((forceStore cfg .data fs f.data).isSome = true ∧ (forceStore cfg .images fs f.images).isSome = true) := by
+            intro ⟨ha, hb⟩
+            cases hd : forceStore cfg .data fs f.data with
+            | none => simp [hd] at ha
+            | some d =>
+              cases hi : forceStore cfg .images fs f.images with
+              | none => simp [hi] at hb
+              | some i => simp [validatePhase, h1, h2, h3, h4, hd, hi] at hv
+          simp [checkOf, this]
+    · exact ⟨_, hmem "objectlibs" (by decide), .objectLibsKey, by simp [checkOf, h2]⟩
+  · exact ⟨_, hmem "version" (by decide), .downgrade, by simp [checkOf, h1]⟩
+
 open Source Generated.SaveOrder in
 /-- **In the source, every validation step stands before `remove_dir_all`** — and nothing else does: the steps in front
     of the wipe are exactly the model's five validators (in any order among themselves), the wipe stands before
